@@ -7,6 +7,8 @@ the closed forms used for large N are first checked against the specification's 
 for N <= 4.  Liveness: every emitted behaviour is replayed holding only its last tensor; after
 gc.collect() the tensors still alive must be within the specification's LiveFrom set."""
 import gc
+import json
+import sys
 import time
 import weakref
 
@@ -23,7 +25,7 @@ L1 = [dict(vec=False, rg=True)]
 def chain_families(sg, n, rec, dtype=np.float64):
     """Returns list of (name, expected grad of a, expected number of backward functions, observed...)."""
     out = []
-    for fam in ("chain_add", "chain_mul_const", "ladder", "fan"):
+    for fam in ("chain_add", "chain_mul_const", "ladder", "fan", "wide"):
         a = sg.Tensor(np.array(1.5, dtype=dtype), requires_grad=True)
         h = sg.Tensor(np.array(0.5, dtype=dtype))
         one = sg.Tensor(np.array(1.0, dtype=dtype))
@@ -41,6 +43,10 @@ def chain_families(sg, n, rec, dtype=np.float64):
             for _ in range(n // 2):
                 x = (x + x) * h
             nf, want = 2 * (n // 2), 1.0
+        elif fam == "wide":         # one operation with n operands (stack of n products), then a reduction
+            k = max(2, n // 10)
+            x = sg.stack([a * one for _ in range(k)]).sum()
+            nf, want = k + 2, float(k)
         else:                       # fan: sum of n products a * 1, built as a running sum
             acc = a * one
             for _ in range(n // 2):
@@ -51,16 +57,25 @@ def chain_families(sg, n, rec, dtype=np.float64):
         rec.active = True
         t0 = time.time()
         err = None
+        pycalls = [0]
+
+        def prof(frame, event, arg):
+            if event == "call":
+                pycalls[0] += 1
         try:
             with repo.quiet():
-                x.backward()
+                sys.setprofile(prof)        # deterministic cost measure: Python-level calls made by backward
+                try:
+                    x.backward()
+                finally:
+                    sys.setprofile(None)
         except BaseException as e:  # RecursionError is the historical failure
             err = type(e).__name__
         finally:
             rec.active = False
         dt = time.time() - t0
         g = None if a.grad is None else float(a.grad.data)
-        out.append(dict(family=fam, n=n, want=want, got=g, fns=nf, calls=len(rec.calls), distinct=len(set(rec.calls)), err=err, secs=dt))
+        out.append(dict(family=fam, n=n, want=want, got=g, fns=nf, calls=len(rec.calls), distinct=len(set(rec.calls)), err=err, secs=dt, pycalls=pycalls[0]))
         del x, a
         gc.collect()
     return out
@@ -88,7 +103,7 @@ def run(ctx):
         if hist[-1]["a"] != "bw" or hist[-1]["err"] or len(ops) != len(hist) - 1:
             continue
         if all(h["ch"] == [i + 1, 1] or h["ch"] == [1, i + 1] for i, h in enumerate(ops)) and hist[-1]["root"] == len(ops) + 1 and hist[-1]["g"] == []:
-            obs = table[RA.prefix_key(hist)]["obs"]
+            obs = json.loads(table[RA.prefix_key(hist)])
             gv = obs["nodes"][0]["g"]
             if gv["t"] != "val" or gv["v"] != [len(ops) + 1]:
                 raise core.Machinery("closed form of the chain family disagrees with the specification: %s" % gv)
@@ -112,15 +127,17 @@ def run(ctx):
                 rep.violation(key + ":grad", "gradient %s, expected %s" % (r["got"], r["want"]), r)
             elif r["calls"] and (r["calls"] != r["fns"] or r["distinct"] != r["fns"]):
                 rep.violation(key + ":once", "%d backward-function invocations (%d distinct) for %d recorded operations" % (r["calls"], r["distinct"], r["fns"]), r)
-    # linear cost: time per recorded operation must not grow with N (generous factor)
+    # linear cost: the number of Python-level calls made by backward per recorded operation must not grow with the
+    # size of the graph (deterministic; wall-clock times are reported but not judged)
     for fam, rs in per.items():
         big = [r for r in rs if r["n"] >= 10000 and not r["err"]]
         mid = [r for r in rs if r["n"] == 1000 and not r["err"]]
-        if big and mid and mid[0]["secs"] > 0:
-            ratio = (big[-1]["secs"] / big[-1]["fns"]) / max(mid[0]["secs"] / mid[0]["fns"], 1e-7)
-            rep.extra.setdefault("cost_ratio_per_op", {})[fam] = round(ratio, 2)
-            if ratio > 8:
-                rep.violation("scale:%s:superlinear" % fam, "time per operation grows %.1fx from N=1000 to N=%d" % (ratio, big[-1]["n"]), big[-1])
+        if big and mid and mid[0]["pycalls"] > 0:
+            ratio = (big[-1]["pycalls"] / big[-1]["fns"]) / (mid[0]["pycalls"] / mid[0]["fns"])
+            rep.extra.setdefault("calls_per_op_ratio", {})[fam] = round(ratio, 2)
+            if ratio > 1.5:
+                rep.violation("scale:%s:superlinear" % fam, "Python-level calls per recorded operation grow %.1fx from N=1000 to N=%d (%d -> %d calls)" % (
+                    ratio, big[-1]["n"], mid[0]["pycalls"], big[-1]["pycalls"]), big[-1])
     # (3) liveness of untracked computations
     mx, table, c = AG.emit(rep, "live", dict(MaxNodes=4 if q else 5, GAlpha={1}, Ops={"mul"} if q else {"add", "mul"}, MaxHist=5, MaxBackward=1, MaxCtx=1,
                                              Acts={"op", "ctx", "bw"}, InitLeaves=[dict(vec=False, rg=True), dict(vec=False, rg=False)]))
